@@ -148,6 +148,15 @@ def strategy(draw):
     avg = draw(st.one_of(st.integers(100, 2000), st.integers(100, 50000), st.sampled_from([1000, 5000, 20000, 150000])))
     mn = draw(st.one_of(st.none(), st.just(0), st.integers(1, max(1, (3 * avg) // 4 - 2)), st.integers(1, avg)))
     tavg = draw(st.one_of(st.integers(20, 3000), st.sampled_from([200 / 0.75, 100, 267])))
+    if isinstance(tavg, int) and tavg % 2 == 0 and draw(st.integers(0, 2)) == 0:
+        # a bait whose length is exactly 2.5 or 4.5 average bins: round() is to the even neighbour (2, 4), so "add a half and
+        # truncate" gives one bin too many (seeded change C12n)
+        c = tgt_chroms[0]
+        s_ = max([b[2] for b in baits if b[0] == c] + [0]) + 3000
+        e_ = s_ + draw(st.sampled_from([5, 9])) * tavg // 2
+        if e_ <= lengths[c]:
+            baits.append([c, s_, e_, "TIE"])
+            baits.sort(key=lambda b: (_order(style, b[0]), b[1], b[2]))
     if access is not None and mn and draw(st.integers(0, 2)) == 0:
         # two accessible stretches on an untargeted canonical contig whose off-target runs measure exactly the minimum
         # size and one base less: the first must be binned, the second must not (a >= / > slip at the minimum)
